@@ -12,6 +12,7 @@ import (
 	"github.com/google/go-tdx-guest/abi"
 	ccpb "github.com/google/go-tdx-guest/proto/checkconfig"
 	pb "github.com/google/go-tdx-guest/proto/tdx"
+	"github.com/google/go-tdx-guest/rtmr"
 	"github.com/google/go-tdx-guest/validate"
 	"pgregory.net/rapid"
 	"verifharness/gen"
@@ -401,6 +402,115 @@ func TestC08(t *testing.T) {
 	})
 	// Options that come out of a policy message (the route the check tool takes): when the conversion succeeds, validation
 	// must still mean what the message says — in particular for SVN minimums that do not fit the 16-bit options fields.
+	// validation options handed out by the library's own constructor for attestation sessions, rtmr.TdxDefaultOpts(nonce):
+	// several sessions are prepared (several calls, different nonces), then quotes are validated against this or that
+	// session's options in any order - each options value expects ITS nonce (zero-padded to 64 bytes) and nothing else
+	gen.Prop(t, "options-from-TdxDefaultOpts-for-several-sessions", gen.N(3000, 200000), func(t *rapid.T) {
+		s := gen.NewStream(rapid.Uint64().Draw(t, "content"), "c08sess")
+		n := rapid.IntRange(2, 4).Draw(t, "sessions")
+		nonces := make([][]byte, n)
+		opts := make([]*validate.Options, n)
+		for i := range nonces {
+			nonces[i] = s.Bytes(rapid.SampledFrom([]int{64, 64, 64, 32, 1, 0}).Draw(t, "nonceLen"))
+		}
+		made := 0
+		var hist []string
+		t.Repeat(map[string]func(*rapid.T){
+			"prepare-next-session": func(t *rapid.T) {
+				if made >= n {
+					t.Skip("all sessions prepared")
+				}
+				opts[made] = rtmr.TdxDefaultOpts(nonces[made]).Validation
+				hist = append(hist, fmt.Sprintf("TdxDefaultOpts(nonce %d)", made))
+				made++
+			},
+			"validate": func(t *rapid.T) {
+				if made == 0 {
+					t.Skip("no session yet")
+				}
+				oi := rapid.IntRange(0, made-1).Draw(t, "session")
+				qi := rapid.IntRange(-1, n-1).Draw(t, "quoteCarriesNonceOf")
+				q := gen.RandomRefQuote(s, 8, 16, 0)
+				binary.LittleEndian.PutUint64(q.Xfam[:], gen.XfamFixed1)
+				binary.LittleEndian.PutUint64(q.TdAttr[:], 0)
+				if qi >= 0 {
+					var rd [64]byte
+					copy(rd[:], nonces[qi])
+					q.ReportData = rd
+				}
+				var want [64]byte
+				copy(want[:], nonces[oi])
+				m := q.ToProto()
+				gen.Eval()
+				v := gen.Call(func() error { return validate.TdxQuote(m, opts[oi]) })
+				hist = append(hist, fmt.Sprintf("validate(quote with nonce %d, session %d) -> %s", qi, oi, v.Short()))
+				if v.Panicked() || v.Accepted() != (q.ReportData == want) {
+					gen.Fail(t, gen.Violation{Key: "session-options:" + map[bool]string{true: "accepts-another-nonce", false: "rejects-own-nonce"}[v.Accepted()], Oracle: "validation succeeds exactly when every configured expectation holds (REPORT_DATA = the nonce the options were made for)", Detail: fmt.Sprintf("history %v", hist), Replay: map[string]any{"kind": "c08-sessions", "history": hist}})
+				}
+			},
+		})
+		if made >= 2 {
+			gen.NonTrivial("c08sess", fmt.Sprint(hist))
+		}
+		gen.Class("options-from-TdxDefaultOpts")
+	})
+	// allow-lists of every length around the sizes at which an implementation might switch strategy (16/17, 32/33,
+	// 64/65, 256/257), holding a NEAR MISS of the quote's MR_TD - the value followed or preceded by further bytes, all
+	// but its last byte, one bit off - and no exact member: the quote misses the expectation
+	gen.Direct(t, "long-allow-lists-with-near-misses", func(t *testing.T) {
+		i := 0
+		for _, n := range []int{1, 2, 3, 15, 16, 17, 18, 32, 33, 64, 65, 256, 257, 1000} {
+			for _, miss := range []string{"value-then-1-byte", "value-then-16-bytes", "value-twice", "1-byte-then-value", "all-but-the-last-byte", "first-24-bytes", "last-bit-off", "first-bit-off"} {
+				for _, where := range []string{"first", "middle", "last"} {
+					i++
+					if !gen.ShardOwns(i) {
+						continue
+					}
+					s := gen.NewStream(gen.Seed()+uint64(i), "c08near")
+					q := gen.RandomRefQuote(s, 8, 16, 0)
+					binary.LittleEndian.PutUint64(q.Xfam[:], gen.XfamFixed1)
+					binary.LittleEndian.PutUint64(q.TdAttr[:], 0)
+					mr := q.MrTd[:]
+					var near []byte
+					switch miss {
+					case "value-then-1-byte":
+						near = append(append([]byte{}, mr...), 0)
+					case "value-then-16-bytes":
+						near = append(append([]byte{}, mr...), s.Bytes(16)...)
+					case "value-twice":
+						near = append(append([]byte{}, mr...), mr...)
+					case "1-byte-then-value":
+						near = append([]byte{0}, mr...)
+					case "all-but-the-last-byte":
+						near = append([]byte{}, mr[:47]...)
+					case "first-24-bytes":
+						near = append([]byte{}, mr[:24]...)
+					case "last-bit-off":
+						near = append([]byte{}, mr...)
+						near[47] ^= 1
+					default:
+						near = append([]byte{}, mr...)
+						near[0] ^= 0x80
+					}
+					list := make([][]byte, n)
+					for k := range list {
+						list[k] = s.Bytes(48)
+					}
+					list[map[string]int{"first": 0, "middle": n / 2, "last": n - 1}[where]] = near
+					o := &validate.Options{TdQuoteBodyOptions: validate.TdQuoteBodyOptions{AnyMrTd: list}}
+					m := q.ToProto()
+					gen.Eval()
+					v := gen.Call(func() error { return validate.TdxQuote(m, o) })
+					if v.Panicked() || v.Accepted() {
+						gen.Fail(t, gen.Violation{Key: "accepts-non-member:near-miss:" + miss, Oracle: "MR_TD is a member of the allowed set when a set of non-empty values is given", Detail: fmt.Sprintf("any_mr_td of %d non-empty entries, none equal to the quote's MR_TD, the %s one being a near miss (%s, %d bytes): %s", n, where, miss, len(near), v), Replay: map[string]any{"kind": "c08-near-miss", "n": n, "miss": miss, "where": where}})
+						return
+					}
+					gen.NonTrivial("c08near", n, miss, where)
+				}
+			}
+		}
+		gen.Class("long-allow-lists-with-near-misses")
+	})
 	gen.Prop(t, "options-converted-from-a-policy", gen.N(6000, 400000), func(t *rapid.T) {
 		s := gen.NewStream(rapid.Uint64().Draw(t, "content"), "c08p")
 		q := drawPolicyQuote(t, s)
